@@ -142,18 +142,31 @@ def explore_limited(body, mfms, max_parts, R):
             d2 = c01.clone(d)
             s2 = sched + ((k,) if k else ())
             trans += 1
+            E4.arm(CPU_GUARD)
             try:
                 d2.receive_data(None if k is None else body[off : off + k])
             except RequestEntityTooLarge:
                 R.use("D:receive-RETL")
                 finals.setdefault(out + (("EXC", "RequestEntityTooLarge"),), s2)
                 continue
+            except E4.Hang:
+                finals.setdefault(out + (("EXC", "Hang"),), s2)
+                continue
             except Exception as e:  # noqa: BLE001
                 finals.setdefault(out + (("EXC", type(e).__name__),), s2)
                 continue
+            finally:
+                E4.disarm()
             if mfms is not None and len(d2.buffer) > mfms:
                 mon.setdefault("buffer-exceeds-max_form_memory_size", (s2, len(d2.buffer)))
-            o, done = c01.pump(d2, out)
+            E4.arm(CPU_GUARD)
+            try:
+                o, done = c01.pump(d2, out)
+            except E4.Hang:
+                finals.setdefault(out + (("EXC", "Hang"),), s2)
+                continue
+            finally:
+                E4.disarm()
             if mfms is not None and len(d2.buffer) > mfms:
                 mon.setdefault("buffer-exceeds-max_form_memory_size", (s2, len(d2.buffer)))
             if max_parts is not None and sum(1 for e in o if e[0] in ("F", "L")) > max_parts:
@@ -222,12 +235,17 @@ def judge_decoder(descr, parts, mfms, max_parts, term):
 def parse_with(body, bs, mfms, mparts, dev):
     src = c01.Src(body, dev)
     p = MultiPartParser(max_form_memory_size=mfms, max_form_parts=mparts, buffer_size=bs)
+    E4.arm(CPU_GUARD)
     try:
         form, files = p.parse(src, B, len(body))
     except RequestEntityTooLarge:
         return "RETL", src
+    except E4.Hang:
+        return "EXC:Hang", src
     except Exception as e:  # noqa: BLE001
         return "EXC:" + type(e).__name__, src
+    finally:
+        E4.disarm()
     f = tuple(form.items(multi=True))
     fl = tuple((k, v.filename, v.content_type, v.stream.read()) for k, v in files.items(multi=True))
     return (f, fl), src
@@ -296,8 +314,8 @@ class InRI(In):
         return len(out)
 
 
-class c09_hang(BaseException):  # noqa: N801
-    pass
+c09_hang = E4.Hang
+CPU_GUARD = 2.0         # CPU-seconds one decoder transition / one parse may take (normal: < 1 ms)
 
 
 def url_bodies(L):
@@ -323,6 +341,7 @@ def run_form(cfg, ch):
         environ["CONTENT_LENGTH"] = str(len(body))
     if terminated:
         environ["wsgi.input_terminated"] = True
+    E4.arm(CPU_GUARD)
     try:
         if via == "request":
             class Rq(Request):
@@ -340,6 +359,8 @@ def run_form(cfg, ch):
         return "HANG", inp
     except Exception as e:  # noqa: BLE001
         return "EXC:" + type(e).__name__, inp
+    finally:
+        E4.disarm()
     f = tuple(form.items(multi=True))
     fl = tuple((k, v.filename, v.content_type, v.stream.read()) for k, v in files.items(multi=True))
     return (f, fl), inp
